@@ -37,7 +37,7 @@ MkRow(fam, prog) ==
 NK == Flow!NKinds
 Init ==
   \/ \E k1 \in 1..NK, sh \in {"nest2", "seq2"} : row = [k |-> "f0", k1 |-> k1, sh |-> sh, done |-> FALSE]
-  \/ \E t \in 1..18 : row = [k |-> "s0", t |-> t, done |-> FALSE]
+  \/ \E t \in 1..Scope!NTemplates : row = [k |-> "s0", t |-> t, done |-> FALSE]
   \/ \E sh \in 1..Alias!NShapes : row = [k |-> "a0", sh |-> sh, done |-> FALSE]
   \/ row = [k |-> "h0", done |-> FALSE]
   \/ \E k1 \in 1..NK : row = [k |-> "o0", k1 |-> k1, done |-> FALSE]
